@@ -225,6 +225,12 @@ def emitEvent(self: Obj("YowLayer"), yowLayerEvent: Obj("YowLayerEvent")):
                     and same_obj(event_arg("upper.emitEvent", 0, 1), yowLayerEvent) and n_events("stack.execDetached") == 0))
     ensures(implies(not is_none(self._YowLayer__upper) and not truthy(event_result("upper.onEvent", 0)) and old(yowLayerEvent.detached),
                     n_events("upper.emitEvent") == 0 and n_events("stack.execDetached") == 1 and not yowLayerEvent.detached))
+    # what the deferred callback does when the stack's loop runs it: the walk continues from the layer ABOVE, once,
+    # and the layer that has already seen the event is not offered it again
+    ensures(implies(not is_none(self._YowLayer__upper) and not truthy(event_result("upper.onEvent", 0)) and old(yowLayerEvent.detached),
+                    in_closure(event_arg("stack.execDetached", 0, 1),
+                               lambda: n_events("upper.emitEvent") == 1 and same_obj(event_arg("upper.emitEvent", 0, 0), self._YowLayer__upper)
+                               and same_obj(event_arg("upper.emitEvent", 0, 1), yowLayerEvent) and n_events("upper.onEvent") == 0)))
     propagates("upper.onEvent")
     propagates("upper.emitEvent")
 
@@ -244,6 +250,10 @@ def broadcastEvent(self: Obj("YowLayer"), yowLayerEvent: Obj("YowLayerEvent")):
                     and same_obj(event_arg("lower.broadcastEvent", 0, 1), yowLayerEvent) and n_events("stack.execDetached") == 0))
     ensures(implies(not is_none(self._YowLayer__lower) and not truthy(event_result("lower.onEvent", 0)) and old(yowLayerEvent.detached),
                     n_events("lower.broadcastEvent") == 0 and n_events("stack.execDetached") == 1 and not yowLayerEvent.detached))
+    ensures(implies(not is_none(self._YowLayer__lower) and not truthy(event_result("lower.onEvent", 0)) and old(yowLayerEvent.detached),
+                    in_closure(event_arg("stack.execDetached", 0, 1),
+                               lambda: n_events("lower.broadcastEvent") == 1 and same_obj(event_arg("lower.broadcastEvent", 0, 0), self._YowLayer__lower)
+                               and same_obj(event_arg("lower.broadcastEvent", 0, 1), yowLayerEvent) and n_events("lower.onEvent") == 0)))
     propagates("lower.onEvent")
     propagates("lower.broadcastEvent")
 
